@@ -108,9 +108,10 @@ pub fn run(args: &Args) -> Report {
         ks: if thorough { vec![0, 1, 2] } else { vec![0, 1] },
         env: 0,
         fault: 0,
-        total_wall: Duration::from_secs(if thorough { 1500 } else { 30 }),
+        total_wall: Duration::from_secs(if thorough { 1500 } else { 50 }),
         max_execs_per_case: if thorough { 400_000 } else { 50_000 },
         required_witnesses: xfer::W_CREDIT_ZERO | xfer::W_ACK_SENT,
+        adaptive: thorough,
         witness_names: super::c02::WITNESS_NAMES,
     };
     rep.rule = "psim: per (rwnd,threshold) pair on each side independently x buffer sizes: stream 1 carries a burst of 2*max(rwnd)+3 frames to a reader that reads to EOF; stream 2 has an absent reader; stream 3 is requested by the other side; a 2-datagram ping-pong runs alongside. Every fair schedule with <= k deviations runs to quiescence; quiescence with an unfinished future other than stream 2's parked ends (and the echo loop) is a stall, the step horizon is a livelock".into();
